@@ -28,7 +28,7 @@ var c16Ops = []string{
 	"beginCommit", "beginCommit", "beginWriteCommit", "beginWriteCommit", "beginAbort", "commitThenAbort", "doubleCommit", "abortForeign",
 	"beginCancelled", "beginTimeout", "insert", "insert", "insertTimeout", "insertFailStore",
 	"sessStart", "sessStart", "sessCommit", "sessAbort", "sessEnd", "sessInsert", "withOK", "withError", "withPanic", "withFailStore",
-	"watchNextClose", "watchLeave", "snapshotRead", "closeEngine",
+	"watchNextClose", "watchLeave", "watchTryCancelled", "snapshotRead", "closeEngine",
 }
 
 func genC16(t *rapid.T) bson.D {
@@ -255,6 +255,28 @@ func (e *c16Env) runOp(actor int, op string, s int) {
 		cancel()
 		if op == "watchNextClose" {
 			_ = st.Close(ctx)
+		}
+	case "watchTryCancelled":
+		// a non-blocking poll with a context that is already cancelled leaves
+		// the stream usable: it can still be asked for its error and closed
+		st, err := coll.Watch(ctx, bson.A{})
+		e.checkErr("Watch", err, closedBefore)
+		if err != nil {
+			return
+		}
+		cctx, ccancel := context.WithCancel(ctx)
+		ccancel()
+		st.TryNext(cctx)
+		fin := make(chan struct{})
+		go func() {
+			_ = st.Err()
+			_ = st.Close(context.Background())
+			close(fin)
+		}()
+		select {
+		case <-fin:
+		case <-time.After(tLive):
+			e.violate("actor %d: after TryNext with a cancelled context Stream.Err / Stream.Close did not return within %v\n%s", actor, tLive, goroutineDump())
 		}
 	case "snapshotRead":
 		txn, err := e.engine.Begin(ctx, false)
